@@ -51,6 +51,7 @@ VARIANTS = {
   fault('image-title-conditional', F(ST, 'Image.__init__', '            self.title = EscapeSequence.strip(match.group(3))\n', "            if match.group(3):\n                self.title = EscapeSequence.strip(match.group(3))\n"), 'R-RENDER-TOTAL'),
  ],
  'C03': [
+  fault('last-item-loose-by-trailing-blank', F(BT, 'List.read', 'last_parse_buffer.loose = len(last_parse_buffer) > 1 and last_parse_buffer.loose', 'last_parse_buffer.loose = len(last_parse_buffer) > 0 and last_parse_buffer.loose'), 'R-LAST-ITEM-LOOSE'),
   fault('listitem-drop-backstep', F(BT, 'ListItem.read', "                if newline_count:\n                    lines.backstep()\n                    del line_buffer[-newline_count:]\n                break\n",
                                    "                if newline_count:\n                    del line_buffer[-newline_count:]\n                break\n"), 'R-LOOSE-SIGNAL'),
   fault('footnote-backtrack-one-line', F(BT, 'Footnote.read', "lines._index -= string[offset:].count('\\n')", "lines._index -= 1"), 'R-DEF-ACCOUNT'),
@@ -71,6 +72,9 @@ VARIANTS = {
                                       'tokenizer.tokenize_block(line_buffer, [t for t in _token_types if t is not Table], start_line=start_line)'), ('R-NEST-SAME', 'token-list')),
   fault('listitem-disables-table-interrupt', F(BT, 'ListItem.read', '        parse_buffer = tokenizer.tokenize_block(line_buffer, _token_types, start_line=content_start_line)\n',
                                                '        Table.interrupt_paragraph = False\n        parse_buffer = tokenizer.tokenize_block(line_buffer, _token_types, start_line=content_start_line)\n        Table.interrupt_paragraph = True\n'), ('R-NEST-SAME', 'interrupt_paragraph')),
+  fault('quote-captures-token-list-at-import', [F(BT, 'Quote.read', 'parse_buffer = tokenizer.tokenize_block(line_buffer, _token_types, start_line=start_line)', 'parse_buffer = _tokenize_children(line_buffer, start_line=start_line)'),
+                                                 S(BT, "_token_types = []\nreset_tokens()\n", "_token_types = []\nreset_tokens()\n\n\n_tokenize_children = partial(tokenizer.tokenize_block, token_types=_token_types)\n"),
+                                                 S(BT, "import re\nfrom itertools import zip_longest\n", "import re\nfrom functools import partial\nfrom itertools import zip_longest\n")], ('R-NEST-SAME', 'token-list')),
   fault('quote-tokenizes-in-constructor', [F(BT, 'Quote.__init__', 'self.children = tokenizer.make_tokens(parse_buffer)', 'self.children = tokenizer.make_tokens(tokenizer.tokenize_block(parse_buffer, _token_types))')], 'R-NEST-PHASE'),
  ],
  'C05': [
@@ -110,6 +114,9 @@ VARIANTS = {
   fault('opener-flag-swapped', F(CT, 'Delimiter.__init__', 'self.open = is_opener(start, end, string)', 'self.open = is_closer(start, end, string)'), 'R-FLANK-WIRED'),
  ],
  'C07': [
+  fault('definition-values-stdlib-unescape', F(ST, 'EscapeSequence.strip', "return tokenizer.unescape(cls.pattern.sub(r'\\1', string))", "return __import__('html').unescape(cls.pattern.sub(r'\\1', string))"), 'R-DEF-VALUE'),
+  fault('label-lowercased', F(CT, 'normalize_label', "return ' '.join(text.split()).casefold()", "return ' '.join(text.split()).lower()"), 'R-LABEL-AGREE'),
+  fault('label-spaces-only', F(CT, 'normalize_label', "return ' '.join(text.split()).casefold()", "return ' '.join(filter(None, text.split(' '))).casefold()"), 'R-LABEL-AGREE'),
   fault('reference-unescaped-twice', F(ST, 'Link.__init__', 'if self.dest_type in _reference_dest_types:', 'if self.dest_type in ():'), 'R-DEF-VALUE'),
   fault('undefined-full-reference-falls-to-shortcut', F(CT, 'match_link_image', "                return match\n        return None\n    # shortcut footnote link: [dest]", "                return match\n    # shortcut footnote link: [dest]"), 'R-LITERAL-FALLBACK'),
   fault('setext-inline-in-block-phase', F(BT, 'Paragraph.read', 'return SetextHeading, line_buffer', 'return SetextHeading, SetextHeading(list(line_buffer)).children and line_buffer'), 'R-PHASE'),
@@ -213,7 +220,9 @@ VARIANTS = {
   fault('intraword-underscore-opens', F(CT, 'is_opener', "and (not is_right\n                 or (is_right and preceded_by(start, string, punctuation))))", "and True)"), 'R-FLANK-PROSE'),
   fault('quote-four-spaces', F(BT, 'Quote.start', 'if len(line) - len(stripped) > 3:', 'if len(line) - len(stripped) > 4:'), 'R-SCANNER-INDENT'),
   fault('htmlblock-four-spaces', F(BT, 'HtmlBlock.start', 'if len(line) - len(stripped) >= 4:', 'if len(line) - len(stripped) > 4:'), 'R-SCANNER-INDENT'),
-  fault('gap-text-stripped', F(SK, 'make_tokens', "t = fallback_token(html.unescape(string[prev_end:token.start]))", "t = fallback_token(html.unescape(string[prev_end:token.start].strip()))"), 'R-GAP-VERBATIM'),
+  fault('charref-prefix-names', F(SK, '_replace_charref', "if ref.startswith('#') or ref in html5:", "if True:"), 'R-GAP-VERBATIM'),
+  fault('charref-without-semicolon', S(SK, "r'|[^\\t\\n\\f <&#;]{1,32};)')", "r'|[^\\t\\n\\f <&#;]{1,32};?)')"), 'R-GAP-VERBATIM'),
+  fault('gap-text-stripped', F(SK, 'make_tokens', "t = fallback_token(unescape(string[prev_end:token.start]))", "t = fallback_token(unescape(string[prev_end:token.start].strip()))"), 'R-GAP-VERBATIM'),
  ],
  'C15': [
   fault('splitlines-drops-terminators', F(BT, 'Document.__init__', 'lines.splitlines(keepends=True)', 'lines.splitlines()'), 'R-NORMAL-FORM'),
@@ -231,7 +240,7 @@ VARIANTS = {
   fault('lt-compares-end', F(SK, 'ParseToken.__lt__', 'return self.start < other.start', 'return (self.start, self.end) < (other.start, other.end)'), 'R-ORDER'),
   fault('new-child-replaces-on-tie', F(SK, 'eval_new_child', 'elif r == 1 and last_child.cls.precedence < child.cls.precedence:', 'elif r == 1 and last_child.cls.precedence <= child.cls.precedence:'), 'R-EVAL'),
   fault('gap-from-token-start', F(SK, 'make_tokens', '        prev_end = token.end\n', '        prev_end = token.start\n'), 'R-TILE'),
-  fault('tail-dropped', F(SK, 'make_tokens', "    if prev_end != end:\n        result.append(fallback_token(html.unescape(string[prev_end:end])))\n", ''), 'R-TILE'),
+  fault('tail-dropped', F(SK, 'make_tokens', "    if prev_end != end:\n        result.append(fallback_token(unescape(string[prev_end:end])))\n", ''), 'R-TILE'),
   fault('children-over-whole-span', F(SK, 'ParseToken.make', 'make_tokens(self.children, self.parse_start, self.parse_end, self.string, self.fallback_token)', 'make_tokens(self.children, self.start, self.end, self.string, self.fallback_token)'), 'R-TILE'),
   fault('sorted-reverse', F(SK, 'find_tokens', 'return sorted(tokens)', 'return sorted(tokens, reverse=True)[::-1]'), 'R-ORDER'),
   fault('nest-ignores-parse_inner', F(SK, 'ParseToken.append_child', "        if self.cls.parse_inner:\n            if not self.children:", "        if True:\n            if not self.children:"), 'R-EVAL'),
@@ -276,8 +285,15 @@ BENIGN_EXTRA = {
          benign('code-matches-clear-method', F(CT, 'find_core_tokens', 'del _code_matches[:]', '_code_matches.clear()'), 'equivalent reset idiom')],
  'C06': [benign('rule-of-three-or-is-equivalent', F(CT, 'Delimiter.closed_by', 'self.origin_number % 3 == 0 and other.origin_number % 3 == 0', 'self.origin_number % 3 == 0 or other.origin_number % 3 == 0'),
                 'under (a+b) % 3 == 0, a % 3 == 0 implies b % 3 == 0: `or` is equivalent to `and` here')],
+ 'C03': [benign('last-item-loose-explicit-branch', F(BT, 'List.read', '            last_parse_buffer.loose = len(last_parse_buffer) > 1 and last_parse_buffer.loose', '            if len(last_parse_buffer) < 2:\n                last_parse_buffer.loose = False'), 'same computation, spelled as a branch')],
  'C07': [benign('first-wins-early-continue', F(BT, 'Footnote.append_footnotes', "            if key not in root.footnotes:\n                root.footnotes[key] = dest, title",
-                                               "            if key in root.footnotes:\n                continue\n            root.footnotes[key] = dest, title"), 'equivalent guard idiom')],
+                                               "            if key in root.footnotes:\n                continue\n            root.footnotes[key] = dest, title"), 'equivalent guard idiom'),
+         benign('label-normaliser-regex', F(CT, 'normalize_label', "return ' '.join(text.split()).casefold()", "return re.sub(r'\\s+', ' ', text.strip()).casefold()"), 'same function of the label, computed with a regex'),
+         benign('charref-resolver-inlined', F(ST, 'EscapeSequence.strip', "return tokenizer.unescape(cls.pattern.sub(r'\\1', string))", "text = cls.pattern.sub(r'\\1', string)\n        return tokenizer._markdown_charref.sub(tokenizer._replace_charref, text)"), 'resolver inlined at the call')],
+ 'C04': [benign('nested-call-through-partial-keywords', [F(BT, 'Quote.read', 'parse_buffer = tokenizer.tokenize_block(line_buffer, _token_types, start_line=start_line)', 'parse_buffer = _tokenize_children(line_buffer, token_types=_token_types, start_line=start_line)'),
+                                                          S(BT, "_token_types = []\nreset_tokens()\n", "_token_types = []\nreset_tokens()\n\n\n_tokenize_children = partial(tokenizer.tokenize_block)\n"),
+                                                          S(BT, "import re\nfrom itertools import zip_longest\n", "import re\nfrom functools import partial\nfrom itertools import zip_longest\n")],
+                'the active list is read at call time and passed by keyword through a partial')],
  'C14': [benign('equivalent-regex-spelling', S(BT, r"pattern = re.compile(r' {0,3}(?:([-_*])\s*?)(?:\1\s*?){2,}$')", r"pattern = re.compile(r' {0,3}(?:([*_-])\s*?)(?:\1\s*?)(?:\1\s*?)+$')"), 'equivalent regex')],
  'C10': [benign('budget-temporary', F(MR, 'MarkdownRenderer.render_quote', "        max_child_line_length = max_line_length - 2 if max_line_length is not None else None\n",
                                       "        prefix = \"> \"\n        max_child_line_length = max_line_length - len(prefix) if max_line_length is not None else None\n"), 'budget via len(prefix)')],
